@@ -65,6 +65,7 @@ FIRST = {  # what happened on the FIRST run against each change, before any stre
     "C13_r5_d": "missed (no string started in the middle of a byte) -> schema added",
     "C12_r5_d": "caught by C20 (same-named module files), not by C12: the defect is in module import, C12's templates are single files",
     "C09_r5_d": "caught; the first witness had small enumerator values whose concrete replay did not reproduce (CPython shares small ints) -> a second witness with every integer outside -5..256 is tried before giving up",
+    "C12_r6_e": "missed (no history in which repository code extends the tree between two reflection() calls) -> reflection(), generate_rpc, reflection() on one object",
     "C05_2": "would have been missed (no plain signal named like an earlier binding's multiplexer) -> schema added before the run",
 }
 
